@@ -291,6 +291,9 @@ class _QOp:
         return self._scaled(k)
     __rmul__ = __mul__
 
+    def compress(self, *a, **k):
+        self.terms = {w: v for w, v in self.terms.items() if sp.simplify(v) != 0}
+
     def __add__(self, o):
         r = _QOp()
         r.terms = dict(self.terms)
